@@ -111,6 +111,12 @@ class SymEnv:
         else:
             self.fact(name, bool(cond), note=note)
 
+    def near(self, name, a, b, tol, note=None):
+        """|a - b| <= tol with a concrete absolute tolerance (used where the operands cancel)"""
+        a, b = (x if isinstance(x, SymReal) else sym.const(x) for x in (a, b))
+        t = sym.qval(tol)
+        self.claims.append(Claim(name, 'bool', t=z3.And(a.t - b.t <= t, b.t - a.t <= t), note=note))
+
     def fact(self, name, ok, note=None):
         """A concrete fact observed on this path (types, None-ness, exceptions, identity)."""
         self.claims.append(Claim(name, 'bool', t=z3.BoolVal(bool(ok)), note=note))
@@ -192,6 +198,9 @@ class ConcEnv:
 
     def true(self, name, cond, note=None):
         self.results.append((name, bool(cond), note, None))
+
+    def near(self, name, a, b, tol, note=None):
+        self.results.append((name, abs(float(a) - float(b)) <= tol * (1 + 1e-6), _show(a), _show(b)))
 
     def fact(self, name, ok, note=None):
         self.results.append((name, bool(ok), note, None))
